@@ -107,35 +107,36 @@ open Bpmn.Model.Builder
 
 /-! ### the process builder invariant -/
 
-/-- the id was produced by a `RandBytes` call before `n`, or is one of the presets `ps` -/
-def Below (o : Nat → Nat) (n : Nat) (ps : List Nat) (i : Id) : Prop :=
-  (∃ p k, k < n ∧ i = Id.gen p (o k)) ∨ (∃ m, m ∈ ps ∧ i = Id.preset m)
+/-- the id was produced by one of the `RandBytes` calls `lo … n-1`, or is one of the presets `ps` -/
+def Below (o : Nat → Nat) (lo n : Nat) (ps : List Nat) (i : Id) : Prop :=
+  (∃ p k, lo ≤ k ∧ k < n ∧ i = Id.gen p (o k)) ∨ (∃ m, m ∈ ps ∧ i = Id.preset m)
 
-theorem Below.mono {o : Nat → Nat} {n n' : Nat} {ps ps' : List Nat} {i : Id}
-    (h : Below o n ps i) (hn : n ≤ n') (hp : ∀ m ∈ ps, m ∈ ps') : Below o n' ps' i := by
-  rcases h with ⟨p, k, hk, rfl⟩ | ⟨m, hm, rfl⟩
-  · exact Or.inl ⟨p, k, by omega, rfl⟩
+theorem Below.mono {o : Nat → Nat} {lo n n' : Nat} {ps ps' : List Nat} {i : Id}
+    (h : Below o lo n ps i) (hn : n ≤ n') (hp : ∀ m ∈ ps, m ∈ ps') : Below o lo n' ps' i := by
+  rcases h with ⟨p, k, hl, hk, rfl⟩ | ⟨m, hm, rfl⟩
+  · exact Or.inl ⟨p, k, hl, by omega, rfl⟩
   · exact Or.inr ⟨m, hp m hm, rfl⟩
 
-theorem fresh_gen {o : Nat → Nat} (hinj : ∀ a b, o a = o b → a = b) {n : Nat} {ps : List Nat} {L : List Id}
-    (hL : ∀ i ∈ L, Below o n ps i) (p : Pfx) {k : Nat} (hk : n ≤ k) : Id.gen p (o k) ∉ L := by
+theorem fresh_gen {o : Nat → Nat} (hinj : ∀ a b, o a = o b → a = b) {lo n : Nat} {ps : List Nat} {L : List Id}
+    (hL : ∀ i ∈ L, Below o lo n ps i) (p : Pfx) {k : Nat} (hk : n ≤ k) : Id.gen p (o k) ∉ L := by
   intro hmem
-  rcases hL _ hmem with ⟨p', k', hk', heq⟩ | ⟨m, _, heq⟩
+  rcases hL _ hmem with ⟨p', k', _, hk', heq⟩ | ⟨m, _, heq⟩
   · injection heq with _ h2
     have := hinj _ _ h2
     omega
   · cases heq
 
-theorem fresh_preset {o : Nat → Nat} {n : Nat} {ps : List Nat} {L : List Id}
-    (hL : ∀ i ∈ L, Below o n ps i) {m : Nat} (hm : m ∉ ps) : Id.preset m ∉ L := by
+theorem fresh_preset {o : Nat → Nat} {lo n : Nat} {ps : List Nat} {L : List Id}
+    (hL : ∀ i ∈ L, Below o lo n ps i) {m : Nat} (hm : m ∉ ps) : Id.preset m ∉ L := by
   intro hmem
-  rcases hL _ hmem with ⟨p', k', _, heq⟩ | ⟨m', hm', heq⟩
+  rcases hL _ hmem with ⟨p', k', _, _, heq⟩ | ⟨m', hm', heq⟩
   · cases heq
   · injection heq with h; exact hm (h ▸ hm')
 
-structure PBCore (o : Nat → Nat) (n : Nat) (ps : List Nat) (b : PB) : Prop where
+structure PBCore (o : Nat → Nat) (lo n : Nat) (ps : List Nat) (b : PB) : Prop where
+  lo_le : lo ≤ n
   nodup : b.proc.ids.Nodup
-  below : ∀ i ∈ b.proc.ids, Below o n ps i
+  below : ∀ i ∈ b.proc.ids, Below o lo n ps i
   flows : ∀ f ∈ b.proc.flows, (∃ s ∈ b.proc.nodes, s.id = f.src ∧ f.id ∈ s.outgoing) ∧
     (∃ t ∈ b.proc.nodes, t.id = f.tgt ∧ f.id ∈ t.incoming)
   ptrEx : ∃ nd ∈ b.proc.nodes, nd.id = b.ptrId
@@ -143,7 +144,7 @@ structure PBCore (o : Nat → Nat) (n : Nat) (ps : List Nat) (b : PB) : Prop whe
   startIn : ∀ nd ∈ b.proc.nodes, nd.kind = .startEvent → nd.incoming = []
 
 /-- while activities are being added there is no end event yet -/
-structure PBInv (o : Nat → Nat) (n : Nat) (ps : List Nat) (b : PB) : Prop extends PBCore o n ps b where
+structure PBInv (o : Nat → Nat) (lo n : Nat) (ps : List Nat) (b : PB) : Prop extends PBCore o lo n ps b where
   noEnd : ∀ nd ∈ b.proc.nodes, nd.kind ≠ .endEvent
 
 /-- `link` followed by storing the linked node (what `AddActivity` does for a stored type, and `Out` for the end) -/
@@ -154,7 +155,7 @@ def linkStore (o : Nat → Nat) (n : Nat) (b : PB) (id : Id) (kind : Kind) : PB 
 theorem ids_unfold (p : Proc) : p.ids = p.id :: (p.nodes.map (·.id) ++ p.flows.map (·.id)) := rfl
 
 /-- explicit form of `linkStore` on a state with unique ids -/
-theorem linkStore_eq {o : Nat → Nat} {n : Nat} {ps : List Nat} {b : PB} (inv : PBCore o n ps b) (id : Id) (kind : Kind) :
+theorem linkStore_eq {o : Nat → Nat} {lo n : Nat} {ps : List Nat} {b : PB} (inv : PBCore o lo n ps b) (id : Id) (kind : Kind) :
     linkStore o n b id kind =
       { proc := { id := b.proc.id, executable := b.proc.executable,
                   nodes := b.proc.nodes.map (setOut b.ptrId (b.ptrOut ++ [Id.gen .flow (o n)])) ++
@@ -178,17 +179,18 @@ end Bpmn.Lemmas.Builder
 namespace Bpmn.Lemmas.Builder
 open Bpmn.Model.Builder
 
-theorem linkStore_core {o : Nat → Nat} (hinj : ∀ a b, o a = o b → a = b) {n n' : Nat} {ps ps' : List Nat} {b : PB}
-    (inv : PBCore o n ps b) (id : Id) (kind : Kind)
-    (hfresh : id ∉ b.proc.ids) (hne : id ≠ Id.gen .flow (o n)) (hbelow : Below o n' ps' id)
+theorem linkStore_core {o : Nat → Nat} (hinj : ∀ a b, o a = o b → a = b) {lo n n' : Nat} {ps ps' : List Nat} {b : PB}
+    (inv : PBCore o lo n ps b) (id : Id) (kind : Kind)
+    (hfresh : id ∉ b.proc.ids) (hne : id ≠ Id.gen .flow (o n)) (hbelow : Below o lo n' ps' id)
     (hn : n + 1 ≤ n') (hps : ∀ m ∈ ps, m ∈ ps') (hk : kind ≠ .startEvent) :
-    PBCore o n' ps' (linkStore o n b id kind) := by
+    PBCore o lo n' ps' (linkStore o n b id kind) := by
+  have hlo := inv.lo_le
   have hsid : Id.gen .flow (o n) ∉ b.proc.ids := fresh_gen hinj inv.below .flow (Nat.le_refl n)
   rw [linkStore_eq inv id kind]
   have hnd := inv.nodup
   rw [ids_unfold] at hnd hfresh hsid
   simp only [List.nodup_cons, List.nodup_append, List.mem_append, List.mem_cons, not_or] at hnd hfresh hsid
-  refine ⟨?_, ?_, ?_, ?_, ?_, ?_⟩
+  refine ⟨by omega, ?_, ?_, ?_, ?_, ?_, ?_⟩
   · -- nodup
     simp only [ids_unfold, List.map_append, List.map_cons, List.map_nil, map_setOut_ids]
     simp only [List.nodup_cons, List.nodup_append, List.mem_append, List.mem_cons, List.mem_singleton,
@@ -209,13 +211,13 @@ theorem linkStore_core {o : Nat → Nat} (hinj : ∀ a b, o a = o b → a = b) {
     intro i hi
     simp only [ids_unfold, List.map_append, List.map_cons, List.map_nil, map_setOut_ids, List.mem_cons,
       List.mem_append, List.mem_singleton, List.not_mem_nil, or_false] at hi
-    have old : ∀ j ∈ b.proc.ids, Below o n' ps' j := fun j hj => (inv.below j hj).mono (by omega) hps
+    have old : ∀ j ∈ b.proc.ids, Below o lo n' ps' j := fun j hj => (inv.below j hj).mono (by omega) hps
     rcases hi with rfl | (hi | rfl) | (hi | rfl)
     · exact old _ (by simp [ids_unfold])
     · exact old _ (by simp [ids_unfold, hi])
     · exact hbelow
     · exact old _ (by simp [ids_unfold, hi])
-    · exact Or.inl ⟨.flow, n, by omega, rfl⟩
+    · exact Or.inl ⟨.flow, n, hlo, by omega, rfl⟩
   · -- flows
     intro f hf
     simp only [List.mem_append, List.mem_singleton] at hf
@@ -269,30 +271,30 @@ def actOk (k : Kind) : Prop := k.stored = true ∧ k ≠ .startEvent ∧ k ≠ .
 
 instance (k : Kind) : Decidable (actOk k) := by unfold actOk; infer_instance
 
-theorem PBCore.mono {o : Nat → Nat} {n n' : Nat} {ps ps' : List Nat} {b : PB} (inv : PBCore o n ps b)
-    (hn : n ≤ n') (hp : ∀ m ∈ ps, m ∈ ps') : PBCore o n' ps' b :=
-  { inv with below := fun i hi => (inv.below i hi).mono hn hp }
+theorem PBCore.mono {o : Nat → Nat} {lo n n' : Nat} {ps ps' : List Nat} {b : PB} (inv : PBCore o lo n ps b)
+    (hn : n ≤ n') (hp : ∀ m ∈ ps, m ∈ ps') : PBCore o lo n' ps' b :=
+  { inv with below := fun i hi => (inv.below i hi).mono hn hp, lo_le := Nat.le_trans inv.lo_le hn }
 
-theorem PBInv.mono {o : Nat → Nat} {n n' : Nat} {ps ps' : List Nat} {b : PB} (inv : PBInv o n ps b)
-    (hn : n ≤ n') (hp : ∀ m ∈ ps, m ∈ ps') : PBInv o n' ps' b :=
+theorem PBInv.mono {o : Nat → Nat} {lo n n' : Nat} {ps ps' : List Nat} {b : PB} (inv : PBInv o lo n ps b)
+    (hn : n ≤ n') (hp : ∀ m ∈ ps, m ∈ ps') : PBInv o lo n' ps' b :=
   { inv.toPBCore.mono hn hp with noEnd := inv.noEnd }
 
-theorem newPB_inv (o : Nat → Nat) (n : Nat) : PBInv o (n + 2) [] (newPB o n).1 := by
-  refine ⟨⟨?_, ?_, ?_, ?_, ?_, ?_⟩, ?_⟩
+theorem newPB_inv (o : Nat → Nat) (n : Nat) : PBInv o n (n + 2) [] (newPB o n).1 := by
+  refine ⟨⟨by omega, ?_, ?_, ?_, ?_, ?_, ?_⟩, ?_⟩
   · simp [newPB, ids_unfold]
   · intro i hi
     simp only [newPB, ids_unfold, List.map_cons, List.map_nil, List.append_nil, List.mem_cons, List.not_mem_nil,
       or_false] at hi
     rcases hi with rfl | rfl
-    · exact Or.inl ⟨_, n, by omega, rfl⟩
-    · exact Or.inl ⟨_, n + 1, by omega, rfl⟩
+    · exact Or.inl ⟨_, n, by omega, by omega, rfl⟩
+    · exact Or.inl ⟨_, n + 1, by omega, by omega, rfl⟩
   · intro f hf; simp [newPB] at hf
   · exact ⟨⟨Id.gen .event (o (n + 1)), .startEvent, [], []⟩, by simp [newPB], rfl⟩
   · intro nd hnd _; simp only [newPB, List.mem_singleton] at hnd; subst hnd; rfl
   · intro nd hnd _; simp only [newPB, List.mem_singleton] at hnd; subst hnd; rfl
   · intro nd hnd; simp only [newPB, List.mem_singleton] at hnd; subst hnd; simp
 
-theorem linkStore_noEnd {o : Nat → Nat} {n : Nat} {ps : List Nat} {b : PB} (inv : PBInv o n ps b) (id : Id) (kind : Kind)
+theorem linkStore_noEnd {o : Nat → Nat} {lo n : Nat} {ps : List Nat} {b : PB} (inv : PBInv o lo n ps b) (id : Id) (kind : Kind)
     (hk : kind ≠ .endEvent) : ∀ nd ∈ (linkStore o n b id kind).proc.nodes, nd.kind ≠ .endEvent := by
   rw [linkStore_eq inv.toPBCore id kind]
   intro nd hnd
@@ -307,34 +309,35 @@ theorem addActivity_stored (o : Nat → Nat) (n : Nat) (b : PB) (k : Kind) (pre 
       | none => (linkStore o (n + 1) b (Id.gen .activity (o n)) k, n + 2) := by
   cases pre <;> simp [addActivity, hk, linkStore, link]
 
-theorem addActivity_inv {o : Nat → Nat} (hinj : ∀ a b, o a = o b → a = b) {n : Nat} {ps : List Nat} {b : PB}
-    (inv : PBInv o n ps b) (k : Kind) (pre : Option Nat) (hk : actOk k) (hpre : ∀ m, pre = some m → m ∉ ps) :
-    PBInv o (addActivity o n b k pre).2 (pre.toList ++ ps) (addActivity o n b k pre).1 ∧
+theorem addActivity_inv {o : Nat → Nat} (hinj : ∀ a b, o a = o b → a = b) {lo n : Nat} {ps : List Nat} {b : PB}
+    (inv : PBInv o lo n ps b) (k : Kind) (pre : Option Nat) (hk : actOk k) (hpre : ∀ m, pre = some m → m ∉ ps) :
+    PBInv o lo (addActivity o n b k pre).2 (pre.toList ++ ps) (addActivity o n b k pre).1 ∧
       n ≤ (addActivity o n b k pre).2 := by
   rw [addActivity_stored o n b k pre hk.1]
   cases pre with
   | some m =>
     refine ⟨⟨?_, ?_⟩, Nat.le_add_right n 1⟩
-    · show PBCore o (n + 1) (m :: ps) (linkStore o n b (Id.preset m) k)
+    · show PBCore o lo (n + 1) (m :: ps) (linkStore o n b (Id.preset m) k)
       refine linkStore_core hinj inv.toPBCore _ k (fresh_preset inv.below (hpre m rfl)) (by intro h; cases h)
         (Or.inr ⟨m, by simp, rfl⟩) (Nat.le_refl _) (by intro x hx; simp [hx]) hk.2.1
     · exact linkStore_noEnd inv _ k hk.2.2
   | none =>
-    have inv1 : PBInv o (n + 1) ps b := inv.mono (by omega) (fun _ h => h)
+    have inv1 : PBInv o lo (n + 1) ps b := inv.mono (by omega) (fun _ h => h)
+    have hlo := inv.lo_le
     refine ⟨⟨?_, ?_⟩, Nat.le_add_right n 2⟩
-    · show PBCore o (n + 2) ps (linkStore o (n + 1) b (Id.gen .activity (o n)) k)
+    · show PBCore o lo (n + 2) ps (linkStore o (n + 1) b (Id.gen .activity (o n)) k)
       refine linkStore_core hinj inv1.toPBCore _ k (fresh_gen hinj inv.below .activity (Nat.le_refl n))
-        (by intro h; cases h) (Or.inl ⟨_, n, by omega, rfl⟩) (Nat.le_refl _) (by intro x hx; simpa using hx) hk.2.1
+        (by intro h; cases h) (Or.inl ⟨_, n, hlo, by omega, rfl⟩) (Nat.le_refl _) (by intro x hx; simpa using hx) hk.2.1
     · exact linkStore_noEnd inv1 _ k hk.2.2
 
 theorem addAll_inv {o : Nat → Nat} (hinj : ∀ a b, o a = o b → a = b) (acts : List (Kind × Option Nat)) :
-    ∀ {n : Nat} {ps : List Nat} {b : PB}, PBInv o n ps b → (∀ a ∈ acts, actOk a.1) →
+    ∀ {lo n : Nat} {ps : List Nat} {b : PB}, PBInv o lo n ps b → (∀ a ∈ acts, actOk a.1) →
       (acts.filterMap (·.2)).Nodup → (∀ m ∈ acts.filterMap (·.2), m ∉ ps) →
-      PBInv o (addAll o n b acts).2 (acts.filterMap (·.2) ++ ps) (addAll o n b acts).1 ∧ n ≤ (addAll o n b acts).2 := by
+      PBInv o lo (addAll o n b acts).2 (acts.filterMap (·.2) ++ ps) (addAll o n b acts).1 ∧ n ≤ (addAll o n b acts).2 := by
   induction acts with
-  | nil => intro n ps b inv _ _ _; simpa [addAll] using inv
+  | nil => intro lo n ps b inv _ _ _; simpa [addAll] using inv
   | cons a rest ih =>
-    intro n ps b inv hok hnd hdis
+    intro lo n ps b inv hok hnd hdis
     obtain ⟨k, pre⟩ := a
     have hstep := addActivity_inv hinj inv k pre (hok (k, pre) (by simp)) (by
       intro m hm; subst hm; exact hdis m (by simp))
@@ -369,9 +372,9 @@ theorem addAll_inv {o : Nat → Nat} (hinj : ∀ a b, o a = o b → a = b) (acts
       · exact Or.inr hm
 
 /-- everything C19 asks of one built process (plus the freshness bound used for the definitions level) -/
-structure ProcWF (o : Nat → Nat) (n : Nat) (ps : List Nat) (p : Proc) : Prop where
+structure ProcWF (o : Nat → Nat) (lo n : Nat) (ps : List Nat) (p : Proc) : Prop where
   nodup : p.ids.Nodup
-  below : ∀ i ∈ p.ids, Below o n ps i
+  below : ∀ i ∈ p.ids, Below o lo n ps i
   flows : ∀ f ∈ p.flows, (∃ s ∈ p.nodes, s.id = f.src ∧ f.id ∈ s.outgoing) ∧
     (∃ t ∈ p.nodes, t.id = f.tgt ∧ f.id ∈ t.incoming)
   startIn : ∀ nd ∈ p.nodes, nd.kind = .startEvent → nd.incoming = []
@@ -382,13 +385,14 @@ theorem outPB_proc (o : Nat → Nat) (n : Nat) (b : PB) :
 
 theorem outPB_counter (o : Nat → Nat) (n : Nat) (b : PB) : (outPB o n b).2.2 = n + 4 := rfl
 
-theorem outPB_wf {o : Nat → Nat} (hinj : ∀ a b, o a = o b → a = b) {n : Nat} {ps : List Nat} {b : PB}
-    (inv : PBInv o n ps b) : ProcWF o (n + 2) ps (outPB o n b).1 := by
+theorem outPB_wf {o : Nat → Nat} (hinj : ∀ a b, o a = o b → a = b) {lo n : Nat} {ps : List Nat} {b : PB}
+    (inv : PBInv o lo n ps b) : ProcWF o lo (n + 2) ps (outPB o n b).1 := by
   rw [outPB_proc]
-  have inv1 : PBInv o (n + 1) ps b := inv.mono (by omega) (fun _ h => h)
+  have hlo := inv.lo_le
+  have inv1 : PBInv o lo (n + 1) ps b := inv.mono (by omega) (fun _ h => h)
   have core := linkStore_core hinj inv1.toPBCore (Id.gen .event (o n)) .endEvent
     (fresh_gen hinj inv.below .event (Nat.le_refl n)) (by intro h; cases h)
-    (n' := n + 2) (ps' := ps) (Or.inl ⟨_, n, by omega, rfl⟩) (Nat.le_refl _) (fun _ h => h) (by decide)
+    (n' := n + 2) (ps' := ps) (Or.inl ⟨_, n, hlo, by omega, rfl⟩) (Nat.le_refl _) (fun _ h => h) (by decide)
   refine ⟨core.nodup, core.below, core.flows, core.startIn, ?_⟩
   rw [linkStore_eq inv1.toPBCore]
   intro nd hnd hk
@@ -399,7 +403,7 @@ theorem outPB_wf {o : Nat → Nat} (hinj : ∀ a b, o a = o b → a = b) {n : Na
 
 theorem buildProcess_wf {o : Nat → Nat} (hinj : ∀ a b, o a = o b → a = b) (n : Nat) (acts : List (Kind × Option Nat))
     (hok : ∀ a ∈ acts, actOk a.1) (hnd : (acts.filterMap (·.2)).Nodup) :
-    ProcWF o (buildProcess o n acts).2 (acts.filterMap (·.2)) (buildProcess o n acts).1 ∧
+    ProcWF o n (buildProcess o n acts).2 (acts.filterMap (·.2)) (buildProcess o n acts).1 ∧
       n ≤ (buildProcess o n acts).2 := by
   have h0 := newPB_inv o n
   have h1 := addAll_inv hinj acts h0 hok hnd (by intro m _; simp)
@@ -409,7 +413,7 @@ theorem buildProcess_wf {o : Nat → Nat} (hinj : ∀ a b, o a = o b → a = b) 
   unfold buildProcess
   simp only [hn]
   constructor
-  · have : ProcWF o ((addAll o (n + 2) (newPB o n).1 acts).2 + 4) (acts.filterMap (·.2))
+  · have : ProcWF o n ((addAll o (n + 2) (newPB o n).1 acts).2 + 4) (acts.filterMap (·.2))
         (outPB o (addAll o (n + 2) (newPB o n).1 acts).2 (addAll o (n + 2) (newPB o n).1 acts).1).1 :=
       { h2 with below := fun i hi => (h2.below i hi).mono (by omega) (fun _ h => h) }
     exact this
